@@ -50,6 +50,15 @@ cancel it - the rounding error is that of the terms, not of the remainder)
   zero_obl  obliquity variants called with obliquity = 0.0 equal the no-obliquity variants ("exactly"): non-modal
             tuple, every shared mode; modes the no-obliquity variant does not have are 0 (with use_static=True: 0 or
             the static term alone, see KF-C14-static-in-every-mode): <= 1e-14 sc (measured: bit-identical).
+  array     kind `array`: eccentricity, obliquity and time are passed as ARRAYS (documented type FloatArray), one value
+            per point, in which Hypothesis chooses which elements are exact zeros (e = 0 and/or obliquity = 0 and/or
+            t = 0 next to non-zero elements), for all eight implementations: (a) `array_vs_scalar`: the array call
+            equals the element-by-element scalar calls within 16 ulp of the mode magnitude / sin^3(colatitude) (numpy's
+            array and scalar cos/sin differ by <= 1 ulp and the source's d2P21 = 4 sin^4/sin^3 amplifies that near the
+            poles; no failure on 1100 generated cases with the tolerance tightened 10x); (b) laplace, deriv (S per
+            point, since points carry different e/obliquity) and modal_sum per element of the array call; (c) zero_obl
+            at the elements whose obliquity is exactly 0 (obliquity variants vs no-obliquity variants called with the
+            same arrays).  Quick: un-jitted source; thorough adds 8 fixed cases through the compiled dispatchers.
   Two-scale ratio tests (no fixed tolerance decides; D(lambda) = max-norm of the difference over 4..6 points and
   all six components, in units of sc; evaluated at lambda, lambda/2, lambda/4; D <= 1e-11 is "below floor" = held).
   A term of too low an order makes EVERY consecutive ratio small for EVERY value of the secondary parameter, whereas a
@@ -138,7 +147,7 @@ TOL_LAP = 2e-12
 TOL_SUM = 1e-12
 TOL_EXACT = 1e-14
 TOL_JIT = 1e-13
-TOL_VEC = 1e-14     # array call vs element-by-element scalar calls: ~45 ulp of the mode's magnitude (measured <= 2 ulp)
+TOL_VEC = 16 * 2.0 ** -52   # array call vs element-by-element scalar calls: 16 ulp of the mode's magnitude / sin^3(colatitude)
 FLOOR = 1e-11
 RATIO_3RD = 2.0 ** 2.5
 RATIO_2ND = 2.0 ** 1.5
@@ -146,15 +155,16 @@ COLAT_MIN = 0.05
 ABS_FLOOR = 1e-300  # absolute slack (potential units; the scale G M R^2/a^3 is >= 6e-12): subnormal values carry no relative precision
 E_MIN = 1e-6     # e and obliquity are 0 or >= 1e-6: below that e^3 terms become subnormal doubles (rounding noise only)
 
-RULE = ('Hypothesis draws kind (derivs 60% | zero_obl | med_gen | sync | low_e), family, 1..3 points (colatitude in [0.05, pi-0.05], '
+RULE = ('Hypothesis draws kind (derivs 45% | array 18% (per-point arrays of e, obliquity, time with exact zeros at elements chosen by Hypothesis) | zero_obl | med_gen | sync | low_e), family, 1..3 points (colatitude in [0.05, pi-0.05], '
         'longitude in [0, 2pi)), time in [0,3] orbital periods, n = 10^[-7,-3.5] rad/s, spin = n*ratio (ratio in [-3,3] | 1 | -1 | 0 | '
         '1.5 | 2), e in {0} u [1e-6,0.4], obliquity in {0} u [1e-6,1.6] (smaller non-zero values only produce subnormal e^3 terms), host mass 10^[22,31] kg, a 10^[7.5,11] m, R '
         '10^[5,8] m, use_static, call path (py arrays | py scalars | jit); two-scale kinds draw obliquity in [0.02,0.2], kappa = e/obl '
         'in {0} u [0.2,2], e in [0.01,0.2]. Non-trivial = e > 0.01 and spin != n and obliquity > 0.01 where the kind/family takes '
-        'them (sync: e > 0.01 only; low_e: obliquity > 0.01; med_gen: always); distinct = distinct argument dict.')
+        'them (sync: e > 0.01 only; low_e: obliquity > 0.01; med_gen: always; array: max e > 0.01 and an exact zero next to a non-zero element in e or obliquity); distinct = distinct argument dict.')
 ASSUMPTIONS = ['finite differences: 6th-order central, h=5e-3, truncation <= 1.4e-14*S, rounding <= 3e-11*S, tolerance 1e-9*S',
                'Laplace identity tolerance 2e-12 relative to the sum of the magnitudes of its four terms (measured 6.8e-14)',
                'modal sum 1e-12 relative (measured 6e-16); zero-obliquity equality 1e-14*scale (measured bit-identical)',
+               'array call vs element-wise scalar calls: 16 ulp of the mode magnitude / sin^3(colatitude) (no failure at 1.6 ulp in 1100 cases)',
                'two-scale ratio tests: D(l)/D(l/2) >= 2^2.5 for O(l^3), >= 2^1.5 for O(e^2); floor 1e-11; no magnitude bound (orders of convergence only)',
                'medium-vs-general obliquity: e scaled jointly with obliquity (total-degree-3 truncation), plus pure-obliquity cases e=0']
 
@@ -768,12 +778,14 @@ def _eval_array(case, c, P, path):
                 continue
             S = max(float(np.max(np.abs(scal[k]))), float(np.max(np.abs(res[impl][k]))),
                     sc if (P['static'] and IMPL[impl][1] != 'simple') else 0.0)
-            dd = np.abs(res[impl][k] - scal[k])
+            # numpy evaluates cos/sin of an array and of a scalar through different code paths (<= 1 ulp apart); the source
+            # computes d2P21/dtheta2 as 4 sin^4/sin^3 with sin = sqrt(1-cos^2), which amplifies that ulp by 1/sin^3(colat)
+            dd = np.abs(res[impl][k] - scal[k]) * np.sin(col) ** 3
             d = float(np.max(dd))
             j = int(np.argmax(np.max(dd, axis=0)))
             c.check(d <= TOL_VEC * S + ABS_FLOOR, {'clause': 'array_vs_scalar', 'impl': impl, 'mode': k},
                     '%s[%s]: call with array e=%r obliquity=%r time differs from the element-by-element scalar calls by %.3e '
-                    '(%.2e of the mode magnitude %.3e) at element %d (e=%r, obliquity=%r): array %r scalar %r'
+                    '(x sin^3(colat); %.2e of the mode magnitude %.3e) at element %d (e=%r, obliquity=%r): array %r scalar %r'
                     % (impl, k, case['evec'], case['obvec'], d, d / S if S else float('inf'), S, j // 14, float(E[j]), float(OB[j]),
                        res[impl][k][:, j].tolist(), scal[k][:, j].tolist()))
         for mode, T in res[impl].items():
